@@ -45,6 +45,7 @@ def remap_curie_prefixes(converter: Converter, remapping: Mapping[str, str]) -> 
 
     :returns: An upgraded converter
     """
+    converter = _copy_converter(converter)
     ordering = _order_curie_remapping(converter, remapping)
     intersection = set(remapping).intersection(remapping.values())
     records = {r.prefix: r for r in converter.records}
@@ -101,6 +102,7 @@ def remap_uri_prefixes(converter: Converter, remapping: Mapping[str, str]) -> Co
     if intersection:
         raise TransitiveError(intersection)
 
+    converter = _copy_converter(converter)
     records = []
     for record in converter.records:
         new_uri_prefix = _get_uri_preferred_or_synonym(record, remapping)
@@ -132,6 +134,7 @@ def rewire(converter: Converter, rewiring: Mapping[str, str]) -> Converter:
 
     :returns: An upgraded converter
     """
+    converter = _copy_converter(converter)
     records = []
     for record in converter.records:
         new_uri_prefix = _get_curie_preferred_or_synonym(record, rewiring)
@@ -164,6 +167,15 @@ def rewire(converter: Converter, rewiring: Mapping[str, str]) -> Converter:
     #         records.append(Record(prefix=prefix, uri_prefix=new_uri_prefix))
 
     return Converter(records)
+
+
+def _copy_converter(converter: Converter) -> Converter:
+    """Copy the converter's records so the caller's converter is never modified."""
+    return Converter(
+        [record.model_copy(deep=True) for record in converter.records],
+        delimiter=converter.delimiter,
+        strict=False,
+    )
 
 
 def _get_curie_preferred_or_synonym(record: Record, upgrades: Mapping[str, str]) -> str | None:
